@@ -9,7 +9,10 @@ use std::collections::{BTreeMap, HashSet};
 use std::fs::File;
 use std::io::{BufWriter, Write};
 
+mod c05;
 mod c09;
+mod gen;
+mod sexp;
 mod c16;
 
 /// SplitMix64: every random choice of a run derives from one state seeded by VERIF_SEED.
@@ -176,6 +179,10 @@ pub fn guarded<T>(f: impl FnOnce() -> T + std::panic::UnwindSafe) -> Result<T, S
     }
 }
 
+thread_local! {
+    pub static LAST_PANIC: std::cell::RefCell<String> = std::cell::RefCell::new(String::new());
+}
+
 pub struct Ctx {
     pub rng: Rng,
     pub out: Out,
@@ -191,6 +198,8 @@ pub fn eval(out: &mut Out, req: &str) -> String {
     let args: Vec<&str> = it.collect();
     let r = if op.starts_with("leb.") {
         c09::eval(out, op, &args)
+    } else if op.starts_with("sub.") {
+        c05::eval(out, op, &args)
     } else if op.starts_with("pr.") {
         c16::eval(out, op, &args)
     } else {
@@ -202,6 +211,10 @@ pub fn eval(out: &mut Out, req: &str) -> String {
 impl Ctx {
     pub fn emit(&mut self, req: &str, nontrivial: bool) -> String {
         let ans = eval(&mut self.out, req);
+        if ans.starts_with("panic") {
+            let loc = LAST_PANIC.with(|p| p.borrow().clone());
+            self.out.stat(&format!("panic-at:{loc}"));
+        }
         self.out.case(req, &ans, nontrivial);
         ans
     }
@@ -213,7 +226,10 @@ fn main() {
         eprintln!("usage: harness <property> <outdir> <seed> <quick|thorough> [extra…]");
         std::process::exit(2);
     }
-    std::panic::set_hook(Box::new(|_| {}));
+    std::panic::set_hook(Box::new(|info| {
+        let loc = info.location().map(|l| format!("{}:{}", l.file(), l.line())).unwrap_or_default();
+        LAST_PANIC.with(|p| *p.borrow_mut() = loc);
+    }));
     let prop = args[1].as_str();
     let dir = args[2].clone();
     let seed: u64 = args[3].parse().unwrap_or(0);
@@ -237,6 +253,7 @@ fn main() {
     }
     match prop {
         "replay" => {}
+        "C05" => c05::run(&mut ctx),
         "C09" => c09::run(&mut ctx),
         "C16" => c16::run(&mut ctx),
         _ => {
